@@ -2097,6 +2097,154 @@ func scRedeclareAcrossRuns(r *h.Rng) *prog {
 	return p
 }
 
+// the completion VALUE of statement lists (12.1 - 12.14), observed through eval: lists that end in statements without a
+// value (empty blocks, if, var, try, with, labelled statements, loops that do not run), break and continue that leave
+// nested blocks after a value was produced, consumed by a labelled statement, a loop, a for-in
+func scCompletion(r *h.Rng) *prog {
+	p := &prog{}
+	p.v("i", "j", "k", "o", "v")
+	p.add(m.X(m.Asg("o", m.Obj(m.Prop{K: "a", V: m.Num(1)}))))
+	nv := 0
+	val := func() m.N { nv++; return m.X(m.Num(100 + nv)) }
+	lab := 0
+	var list func(d int, brk, cnt string) []m.N
+	stmt := func(d int, brk, cnt string) m.N {
+		c := r.Intn(12)
+		if d <= 0 && c > 4 {
+			c = r.Intn(5)
+		}
+		switch c {
+		case 0, 1:
+			return val()
+		case 2:
+			return m.Block()
+		case 3:
+			return m.VarS("v", m.Num(5))
+		case 4: // leave through the nearest target, after a value or not
+			if brk != "" && r.Bool() {
+				t := brk
+				if brk == cnt && r.Bool() {
+					t = "" // the nearest enclosing target is a loop: a plain break reaches it
+				}
+				if r.Bool() {
+					return m.Block(val(), m.Break(t))
+				}
+				return m.Block(m.Break(brk))
+			}
+			if cnt != "" {
+				return m.Block(val(), m.Continue(pickS(r, []string{cnt, ""})))
+			}
+			return m.Block(val())
+		case 5:
+			return m.Block(list(d-1, brk, cnt)...)
+		case 6:
+			return m.If(m.Num(r.Intn(2)), list(d-1, brk, cnt), list(d-1, brk, cnt))
+		case 7:
+			lab++
+			l := fmt.Sprintf("L%d", lab)
+			return m.Label(l, m.Block(append(list(d-1, l, ""), m.Break(l))...))
+		case 8:
+			lab++
+			l := fmt.Sprintf("W%d", lab)
+			ctr := fmt.Sprintf("c%d", lab)
+			p.v(ctr)
+			body := append([]m.N{inc(ctr, 1)}, list(d-1, l, l)...)
+			return m.Block(m.X(m.Asg(ctr, m.Num(0))), m.Label(l, m.While(m.Lt(m.Var(ctr), m.Num(r.Intn(3))), body)))
+		case 9:
+			return m.Try(list(d-1, brk, cnt), "e", list(d-1, brk, cnt), nil, true, false)
+		case 10:
+			return m.With(m.Var("o"), list(d-1, brk, cnt)...)
+		default:
+			lab++
+			l := fmt.Sprintf("F%d", lab)
+			return m.Label(l, m.ForIn(false, "k", m.Var("o"), list(d-1, l, l)...))
+		}
+	}
+	list = func(d int, brk, cnt string) []m.N {
+		var out []m.N
+		for n := r.Intn(4); n > 0; n-- {
+			out = append(out, stmt(d, brk, cnt))
+		}
+		return out
+	}
+	for n := 1 + r.Intn(3); n > 0; n-- {
+		body := list(2, "", "")
+		if len(body) == 0 {
+			body = []m.N{m.Block()}
+		}
+		if r.Bool() {
+			p.add(lg(m.EvalD(nil, nil, body)))
+		} else {
+			p.add(lg(m.EvalI(nil, nil, body)))
+		}
+	}
+	p.add(m.X(m.Num(0)))
+	return p
+}
+
+// switch (12.11): discriminants and case values of every kind this layer has - numbers, literal strings, strings made by
+// String.fromCharCode (held differently inside the engine, equal all the same), NaN (never selected), booleans, null,
+// undefined, one object through two variables - with case expressions that log when they are evaluated, the default
+// clause first / in the middle / last / absent, fall-through, break, continue to an enclosing loop, and the statement's
+// completion value
+func scSwitch(r *h.Rng) *prog {
+	p := &prog{}
+	p.v("d", "o", "q", "i")
+	p.decl("tick", m.Fn{Name: "tick", Params: []string{"t", "v"}, Body: []m.N{lg(m.Var("t")), m.Ret(m.Var("v"))}})
+	p.add(m.X(m.Asg("o", m.Obj())), m.X(m.Asg("q", m.Var("o"))))
+	vals := []m.N{m.Num(1), m.Num(2), m.Str("a"), m.Fcc(97), m.Fcc(98), m.Str("b"), m.Sub(m.Str("x"), m.Num(1)), m.Bool(true), m.Null(), m.Undef(),
+		m.Var("o"), m.Var("q"), m.Obj(), m.Add(m.Fcc(97), m.Fcc(98)), m.Str("ab")}
+	one := func() m.N {
+		d := vals[r.Intn(len(vals))]
+		nc := 1 + r.Intn(4)
+		dpos := r.Intn(nc + 2) // ≥ nc: no default clause
+		var cs []m.Clause
+		for k := 0; k <= nc; k++ {
+			if k == dpos {
+				body := []m.N{lg(m.Str("dflt"))}
+				if r.Chance(40) {
+					body = append(body, m.Break(""))
+				}
+				cs = append(cs, m.Clause{Body: body})
+			}
+			if k == nc {
+				break
+			}
+			t := vals[r.Intn(len(vals))]
+			if r.Chance(35) {
+				t = d
+			}
+			if r.Bool() {
+				t = m.CallV("tick", m.Str(fmt.Sprintf("t%d", k)), t)
+			}
+			body := []m.N{lg(m.Str(fmt.Sprintf("c%d", k))), m.X(m.Num(10 + k))}
+			switch r.Intn(4) {
+			case 0:
+				body = append(body, m.Break(""))
+			case 1:
+				body = append(body, m.Block(m.X(m.Num(20+k)), m.Break("")))
+			default: // fall through
+			}
+			tt := t
+			cs = append(cs, m.Clause{Test: &tt, Body: body})
+		}
+		return m.Switch(d, cs...)
+	}
+	for n := 1 + r.Intn(3); n > 0; n-- {
+		switch r.Intn(3) {
+		case 0:
+			p.add(one())
+		case 1: // its completion value
+			p.add(lg(m.EvalD(nil, nil, []m.N{m.X(m.Num(5)), one()})))
+		default: // inside a loop: continue passes through the switch
+			p.add(m.X(m.Asg("i", m.Num(0))), m.While(m.Lt(m.Var("i"), m.Num(2)), []m.N{inc("i", 1),
+				m.Switch(m.Var("i"), m.Clause{Test: &vals[0], Body: []m.N{lg(m.Str("one")), m.Continue("")}}, m.Clause{Body: []m.N{lg(m.Str("other"))}}), lg(m.Str("after"))}))
+		}
+	}
+	p.add(m.X(m.Num(0)))
+	return p
+}
+
 func init() {
 	fnScenarios = append(fnScenarios, []fnScenario{
 		{"with-lookup", scWithLookup}, {"with-closure", scWithClosure}, {"with-this", scWithThis}, {"with-var", scWithVar},
@@ -2106,5 +2254,5 @@ func init() {
 		{"labels", scLabels}, {"dup-params", scDupParams}, {"order", scOrder},
 		{"label-capture", scLabelCapture}, {"eval-throw", scEvalThrow},
 		{"hoist-collide", scHoistCollide}, {"label-stale", scLabelStale}, {"host-reentry", scHostReentry},
-		{"bind-chain", scBindChain}, {"forin-init", scForInInit}, {"eval-delete", scEvalDelete}, {"args-define", scArgsDefine}, {"global-redeclare", scGlobalRedeclare}, {"cond-ref", scCondRef}, {"late-global", scLateGlobal}, {"uncaught", scUncaught}, {"fresh-literals", scFreshLiterals}, {"prim-base", scPrimBase}, {"dup-keys", scDupKeys}, {"catch-delete", scCatchDelete}, {"forin-rebind", scForInRebind}, {"fn-ctor", scFnCtor}, {"redeclare-runs", scRedeclareAcrossRuns}}...)
+		{"bind-chain", scBindChain}, {"forin-init", scForInInit}, {"eval-delete", scEvalDelete}, {"args-define", scArgsDefine}, {"global-redeclare", scGlobalRedeclare}, {"cond-ref", scCondRef}, {"late-global", scLateGlobal}, {"uncaught", scUncaught}, {"fresh-literals", scFreshLiterals}, {"prim-base", scPrimBase}, {"dup-keys", scDupKeys}, {"catch-delete", scCatchDelete}, {"forin-rebind", scForInRebind}, {"fn-ctor", scFnCtor}, {"redeclare-runs", scRedeclareAcrossRuns}, {"completion", scCompletion}, {"switch", scSwitch}}...)
 }
